@@ -21,7 +21,9 @@ coercions, filters on variables and on tags of the same / earlier vertices incl.
 optional scopes, edge parameters): `interp_eq_spec_F0`, `interp_eq_spec_F1`,
 `interp_ok_iff_spec_ok_F1`, `interp_eq_spec_F1_default_env`, and F2 (+ `@recurse`, built on the stage
 lemma `recurse_is_reach` below): `interp_eq_spec_F2`, `interp_ok_iff_spec_ok_F2`,
-`interp_eq_spec_F2_default_env`.  OPEN: F3 (@fold).  Every run reports how many generated queries
+`interp_eq_spec_F2_default_env`, and F3a (+ `@fold` in arbitrary nesting with count outputs/tags/filters and
+the missing-scope / empty-fold defaults, for queries where no fold imports a tag):
+`interp_eq_spec_F3a`, `interp_ok_iff_spec_ok_F3a`.  OPEN: F3b (folds importing tags).  Every run reports how many generated queries
 fall into the proved fragment with the hypotheses `Hyps` satisfied (driver request `hyps-c01`).
 
 Proved so far — the stage lemmas the induction is assembled from, each tying one engine mechanism
@@ -171,3 +173,5 @@ end TF.C01
 #print axioms TF.C01.interp_eq_spec_F2
 #print axioms TF.C01.interp_ok_iff_spec_ok_F2
 #print axioms TF.C01.interp_eq_spec_F2_default_env
+#print axioms TF.C01.interp_eq_spec_F3a
+#print axioms TF.C01.interp_ok_iff_spec_ok_F3a
